@@ -346,6 +346,14 @@ func (w *world) apply(o op) {
 			w.fail("close-error", "Close: %v", err)
 		}
 		w.calls++
+		// a caller that closes everything it was handed may close the nested results AFTER their parent: they belong to
+		// the parent (which has just released them), so this is a no-op too - it must not release anything a second time
+		for _, nh := range h.nested {
+			if err := nh.res.Close(); err != nil {
+				w.fail("nested-close-error", "Close of a nested result after its parent: %v", err)
+			}
+			w.calls++
+		}
 		w.live = append(w.live[:o.h], w.live[o.h+1:]...)
 		// closing one result must leave every OTHER result of the same decoder - and the nested results it handed
 		// out - untouched: read them again right away (read-only: no further nested results are requested)
